@@ -37,21 +37,25 @@ def canon (shape x y : Nat) : List Char :=
   | 4 => dig x ++ ",".toList ++ dig y ++ ".1h1v.8h-1".toList
   | _ => dig x ++ ".5,".toList ++ dig y ++ "l.5,.5l-.5,.5l-.5,-.5z".toList
 
+/-- which of the six texts a sub-path can be, from how its first two numbers are written and what follows them:
+(shape, x) for first number `a` -/
+def guess (fx fy : Bool) (c : Char) (a : Nat) : Option (Nat × Nat) :=
+  match fx, fy, c with
+  | false, false, 'h' => some (0, a)
+  | false, true, 'a' => if a ≥ 1 then some (1, a - 1) else none
+  | true, true, ' ' => some (2, a)
+  | true, false, 'h' => some (3, a)
+  | false, true, 'h' => some (4, a)
+  | true, false, 'l' => some (5, a)
+  | _, _, _ => none
+
 /-- reads one sub-path: (shape, x, y) of the cell it draws; `none` if it is not one of the six texts -/
 def readSub (sub : List Char) : Option (Nat × Nat × Nat) :=
   match number sub with
   | some (a, fx, ',' :: r) =>
     match number r with
     | some (b, fy, c :: _) =>
-      let guess : Option (Nat × Nat) :=
-        if !fx ∧ !fy ∧ c = 'h' then some (0, a)
-        else if !fx ∧ fy ∧ c = 'a' then (if a ≥ 1 then some (1, a - 1) else none)
-        else if fx ∧ fy ∧ c = ' ' then some (2, a)
-        else if fx ∧ !fy ∧ c = 'h' then some (3, a)
-        else if !fx ∧ fy ∧ c = 'h' then some (4, a)
-        else if fx ∧ !fy ∧ c = 'l' then some (5, a)
-        else none
-      match guess with
+      match guess fx fy c a with
       | some (sh, x) => if canon sh x b = sub then some (sh, x, b) else none
       | none => none
     | _ => none
